@@ -38,6 +38,10 @@ type FakeIdP struct {
 	// Auto: when an endpoint has no scripted answer, answer from the token table below
 	Tokens map[string]*TokenInfo // access or refresh token -> info
 	delay  time.Duration         // every call is held this long before it is answered (widens overlaps)
+	// ExpiresIn is the expires_in of tokens minted by the token table (0 = 3600); RevokedDesc the error_description
+	// of a refused refresh ("" = Google's wording)
+	ExpiresIn   int64
+	RevokedDesc string
 }
 
 // TokenInfo is what the fake IdP knows about a token family.
@@ -195,15 +199,20 @@ func (f *FakeIdP) auto(ep string, c IdpCall) IdpAnswer {
 		at, rt := "at-"+ti.Family+"-1", "rt-"+ti.Family
 		f.Tokens[at], f.Tokens[rt] = ti, ti
 		claims, _ := json.Marshal(map[string]interface{}{"email": ti.Email, "email_verified": ti.Verified})
-		return IdpAnswer{Body: TokenBody(at, rt, 3600, IDToken(string(claims)))}
+		return IdpAnswer{Body: TokenBody(at, rt, f.expiresIn(), IDToken(string(claims)))}
 	case "token_refresh":
 		ti, ok := f.Tokens[c.Form["refresh_token"]]
 		if !ok || ti.Revoked {
-			return IdpAnswer{Status: 400, Body: `{"error":"invalid_grant","error_description":"Token expired or revoked"}`}
+			desc := f.RevokedDesc
+			if desc == "" {
+				desc = "Token expired or revoked"
+			}
+			b, _ := json.Marshal(map[string]string{"error": "invalid_grant", "error_description": desc})
+			return IdpAnswer{Status: 400, Body: string(b)}
 		}
 		at := fmt.Sprintf("at-%s-%d", ti.Family, len(f.calls))
 		f.Tokens[at] = ti
-		return IdpAnswer{Body: TokenBody(at, "", 3600, "")}
+		return IdpAnswer{Body: TokenBody(at, "", f.expiresIn(), "")}
 	case "validate":
 		tok := c.Form["access_token"]
 		if tok == "" {
@@ -236,6 +245,13 @@ func (f *FakeIdP) auto(ep string, c IdpCall) IdpAnswer {
 		return IdpAnswer{Status: 400, Body: `{"error":"invalid_token","error_description":"Token expired or revoked"}`}
 	}
 	return IdpAnswer{Status: 404, Body: `{}`}
+}
+
+func (f *FakeIdP) expiresIn() int64 {
+	if f.ExpiresIn > 0 {
+		return f.ExpiresIn
+	}
+	return 3600
 }
 
 // Grant registers an authorization code the IdP will accept for a user (a new token family).
